@@ -606,7 +606,7 @@ func c18Run(c *Ctx) {
 	c.S.Assumptions = []string{"key prefixes are single punctuation characters (as the property states)", "the fresh-process baseline is recorded in the worker before any setter is called"}
 	depth := 4
 	if c.Thorough {
-		depth = 5
+		depth = 6
 	}
 	type node struct {
 		hist  []int
